@@ -552,6 +552,7 @@ fn generate_hardening(seed: u64, thorough: bool, emit: &mut dyn FnMut(String)) {
         }
     }
     generate_duplicates(seed, thorough, emit);
+    generate_round6(seed, thorough, emit);
 }
 
 // ------------------------------------------------------------------------------------ round-4 family: duplicates
@@ -698,5 +699,108 @@ fn generate_duplicates(seed: u64, thorough: bool, emit: &mut dyn FnMut(String)) 
                 emit(req_di(prec, &terms));
             }
         }
+    }
+}
+
+// ------------------------------------------------------------------------------------ round-6 families
+//
+// O. BLOCK BOUNDARIES: the number of coefficients (ds, dm) and the number of terms (di) at blk-1, blk, blk+1, blk+2 and
+//    2*blk+1 for blk = 16, 32, 64, 128, 256, with all-different values (a chunk of the list that is printed twice, dropped,
+//    reversed or joined without its separator changes the polynomial that is read back), dense and with exact zeros on
+//    both sides of each boundary (elided terms next to a chunk edge).
+// P. EXACT RELATIONS: coefficients and exponents that are EXACT decimal ties at the requested precision (odd / 2^k has
+//    exactly k decimals, the last one a 5: at precision k - 1 the distance to both neighbours is exactly half a unit, which
+//    the statement still allows), and 1 / -1 / 0 missed by one ulp and by 2^-40 relative (the elision rules must be exact).
+fn generate_round6(seed: u64, thorough: bool, emit: &mut dyn FnMut(String)) {
+    let mut rng = Rng::new(seed ^ 0xC17_0006_B10C);
+    let precs = all_precs();
+    let mut sizes: Vec<usize> = vec![];
+    for b in [16usize, 32, 64, 128, 256] {
+        sizes.extend([b - 1, b, b + 1, b + 2, 2 * b + 1]);
+    }
+    sizes.sort();
+    sizes.dedup();
+    let edges = [15usize, 16, 17, 31, 32, 33, 63, 64, 65, 127, 128, 129, 255, 256, 257];
+    for (li, &len) in sizes.iter().enumerate() {
+        if len > 258 && !thorough {
+            continue;
+        }
+        let prec = precs[(li * 5 + rng.below(19) as usize) % precs.len()];
+        // all-different coefficients: k + a fraction, alternating signs irregularly
+        let cs: Vec<f64> = (0..len).map(|k| (k as f64 + 1.0 + 0.25 * ((k * k) % 3) as f64) * if (k * k + k / 3) % 3 == 0 { -1.0 } else { 1.0 }).collect();
+        let var = *rng.pick(&[Some('x'), Some('z'), None]);
+        emit(req_ds(prec, var, &cs));
+        emit(req_ds(None, var, &cs));
+        // exact zeros / units on both sides of every boundary
+        let mut holes = cs.clone();
+        for (ei, &e) in edges.iter().enumerate() {
+            if e < len {
+                holes[e] = [0.0, 1.0, -1.0, -0.0][(ei + li) % 4];
+            }
+        }
+        emit(req_ds(prec, var, &holes));
+        // only the positions next to the boundaries are non-zero
+        let mut sparse = vec![0.0; len];
+        for &e in edges.iter() {
+            if e < len {
+                sparse[e] = cs[e];
+            }
+        }
+        sparse[len - 1] = cs[len - 1];
+        emit(req_ds(None, var, &sparse));
+        // as many terms: one variable with exponents 0, 1, 2, ... (the univariate polynomial as a term list), then
+        // mixed variables
+        let uni: Vec<TermSpec> = (0..len).map(|k| (cs[k], if k == 0 { vec![] } else { vec![("x".to_string(), k as f64)] })).collect();
+        emit(req_di(None, &uni));
+        emit(req_di(prec, &uni));
+        let mixed: Vec<TermSpec> = (0..len)
+            .map(|k| {
+                let vars: Vec<(String, f64)> = letters_subset(&mut rng, 4).into_iter().enumerate().map(|(vi, l)| (l, (1 + (k + vi) % 7) as f64 * if (k + vi) % 5 == 0 { -0.5 } else { 1.0 })).collect();
+                (if edges.contains(&k) { [1.0, -1.0, cs[k]][k % 3] } else { cs[k] }, vars)
+            })
+            .collect();
+        emit(req_di(prec, &mixed));
+        if len <= 130 || thorough {
+            emit(req_dm(&cs));
+            emit(req_dm(&holes));
+        }
+    }
+    // ---- exact ties
+    for k in 1..=18i32 {
+        let unit = 2f64.powi(-k);
+        for odd in [1.0, 3.0, 5.0, 7.0, 9.0, 11.0, 13.0, 15.0, 17.0, 19.0] {
+            let v = odd * unit;
+            for base in [0.0, 1.0, 2.0, 7.0, 99.0] {
+                let c = base + v;
+                if !thorough && (odd as i32 + k + base as i32) % 3 != 0 {
+                    continue;
+                }
+                for p in [k - 2, k - 1, k] {
+                    if !(0..=17).contains(&p) {
+                        continue;
+                    }
+                    let prec = Some(p as usize);
+                    emit(req_ds(prec, Some('x'), &[c, -c, 1.0, c]));
+                    emit(req_di(prec, &[(c, vec![("x".to_string(), c)]), (-c, vec![("y".to_string(), -c)]), (c, vec![])]));
+                }
+                if k <= 6 {
+                    emit(req_dm(&[c, -c, c]));
+                }
+            }
+        }
+    }
+    // ---- 1, -1 and 0 missed by one ulp and by 2^-40
+    let mut nearly: Vec<f64> = vec![];
+    for b in [1.0f64, -1.0] {
+        nearly.extend([b, f64::from_bits(b.to_bits() + 1), f64::from_bits(b.to_bits() - 1), b * (1.0 + 2f64.powi(-40)), b * (1.0 - 2f64.powi(-40))]);
+    }
+    nearly.extend([0.0, -0.0, f64::from_bits(1), -f64::from_bits(1), 2f64.powi(-40), -(2f64.powi(-40))]);
+    for &a in &nearly {
+        for prec in [None, Some(0), Some(5), Some(12), Some(16), Some(17)] {
+            emit(req_ds(prec, Some('x'), &[a, a, -a, a]));
+            emit(req_di(prec, &[(a, vec![("x".to_string(), 2.0)]), (2.0, vec![("x".to_string(), a)]), (a, vec![("y".to_string(), a)]), (a, vec![])]));
+        }
+        emit(req_dt(&(a, vec![("x".to_string(), a)])));
+        emit(req_dm(&[a, -a, a]));
     }
 }
